@@ -78,10 +78,10 @@ def run(ctx):
             for pos, c in enumerate(run_["order"]):
                 resp[c - 1] = run_["resps"][pos]
             partial = any(resp[c - 1]["err"] and reqs[c - 1]["k"] == "add2" for c in order)
-            for path in ("grpc", "ui"):
+            for path, cancel in (("grpc", ""), ("ui", ""), ("grpc", "mutation")):
                 c = sl.base_case(reqs, "serial", path)
                 c.update({"id": len(cases), "order": order, "final": sl.canon_final(run_["final"]), "resp": resp,
-                          "check_resp": True, "check_world": not partial})
+                          "check_resp": True, "check_world": not partial, "cancel": cancel})
                 cases.append(c)
     # the single-request CASE lines must agree with the SERIAL export (two routes through the spec)
     single_final = {tuple(s["cfg"])[1]: s for s in serial_lines if s["cfg"][0] == 0}
@@ -100,12 +100,12 @@ def run(ctx):
             ctx.distinct_cases.add(canon([c["path"], c["sig"], c["order"]]))
     ctx.traces_validated = len(cases)
     ctx.extra_cov["change_requests_enumerated"] = n
-    ctx.extra_cov["histories"] = len(cases) // 2
+    ctx.extra_cov["histories"] = len(cases) // 3
     return ctx.finish(
         "model_checking",
         rule="TLC enumerates 32 request shapes (every change kind x target present/missing x world present/absent, plus "
              "read/delete/list as context) and every ordered pair of them; each history runs one request at a time on the "
-             "real grpc service and on api.Evaluator, and after every request the reported error and IDs, and at the end the "
+             "real grpc service (also with the request's context cancelled the moment its change starts to be applied) and on api.Evaluator, and after every request the reported error and IDs, and at the end the "
              "worlds, are compared with the spec. distinct = distinct (front end, history) containing a change request.",
         assumptions=["returned IDs are compared as sets", "a change is 'applied' when ingest's Apply returns nil for it; the "
                      "spec's failure conditions are: tag edit on a missing feature, a feature that fails validation, any failing "
